@@ -22,6 +22,9 @@ def check(chk, thorough=False):
     chk.run('C06.d', 'R-PAIR', 'one re-injection site; the fragment itself is withdrawn from delivery on every path; the synthesized bundle goes through the normal receive path', lambda ob: c06d(tree, ob), floor=3)
     chk.run('C06.f', 'R-ORDER', 'fragments and the re-injected bundle pass the receive gates: CRC gate on the whole failing set, unbounded seen-identity set, add before processing (= C08.b, C10.a)', lambda ob: (_c08b(tree, ob), c10a(tree, ob)), floor=8)
     chk.run('C06.g', 'sibling', 'checking a block CRC leaves the block as it was (blocks of the first fragment are copied into the reassembled bundle after they were checked) (= C08.c)', lambda ob: _c08c(tree, ob), floor=8)
+    chk.run('C06.l', 'R-SCHEMA', 'the reassembled primary block leaves with a CRC computed over its new content: update_crc recomputes, it never keeps a value (= C08.d)', lambda ob: __import__('sa.props.c08', fromlist=['c08d']).c08d(tree, ob), floor=6)
+    chk.run('C06.m', 'R-FRESH', 'the reassembly table belongs to the application object of one agent (created per instance): two agents in one process do not share reassemblies', lambda ob: __import__('sa.props.common', fromlist=['per_instance_state']).per_instance_state(tree, ob, 'bp/app/fragment.py', ['Fragment']), floor=1)
+    chk.run('C06.n', 'R-NOPATH', 'every fragment admitted to reassembly is spliced in (no way from the table lookup to the exit around the splice): overlapping fragments lose nothing', lambda ob: c06n(tree, ob), floor=1)
     chk.run('C06.e', 'R-GUARD', 'first_frag only from offset 0; the synthesized bundle copies its primary and blocks, clears the fragment flag and replaces only the payload data', lambda ob: c06e(tree, ob), floor=5)
 
 
@@ -261,3 +264,25 @@ def c06k(tree, ob):
         ob.site(ADMIN, from_data[0], 'the record is decoded from the payload block data')
     else:
         ob.violate(ADMIN, fv.qual, 'cbor2.loads(ctr.block_num(1).getfieldval(\'btsd\'))', 'the administrative record is not decoded from the payload block data', fv.func)
+
+
+def c06n(tree, ob):
+    ''' "in any arrival order, also with overlapping fragments": a fragment that is admitted to reassembly (to be delivered here,
+    fragment flag set) always has its octets spliced in.  Whether its first octet is already covered says nothing about its
+    last one: skipping it as a repeat leaves a hole that no later fragment needs to fill. '''
+    fv = FuncView(tree, FRAG, Q)
+    looks = [n for n in walk_local(fv.func) if isinstance(n, ast.Assign) and isinstance(n.value, ast.Call) and isinstance(n.value.func, ast.Attribute)
+             and n.value.func.attr in ('get', 'setdefault', 'pop') and src(n.value.func.value) == 'self._reassembly']
+    look = one(looks, 'lookup of the reassembly under way', ob)
+    grows = [n for n in walk_local(fv.func) if isinstance(n, ast.AugAssign) and isinstance(n.op, ast.BitOr) and src(n.target).endswith('.valid')]
+    grow = one(grows, 'coverage update', ob)
+    rets = [r for r in walk_local(fv.func) if isinstance(r, ast.Return)]
+    skipped = [r for r in rets if fv.node(r) in fv.cfg.reachable([fv.node(look)], avoid=[fv.node(grow)])]
+    for r in skipped:
+        ob.violate(FRAG, Q, 'return between the table lookup and the splice (under {})'.format(' and '.join(('' if p else 'not ') + t for (t, p) in (fv.facts(r) or ()) if 'valid' in t or 'offset' in t)[:80] or 'a test'),
+                   'an admitted fragment can leave reassembly without its octets being spliced in: with overlapping fragments the part that only this fragment carries is lost and the bundle never completes', r, sure=True)
+    (ok, wit) = fv.cfg.must_pass(fv.node(look), fv.cfg.exit, {fv.node(grow)}, include_exc=False)
+    if ok and not skipped:
+        ob.site(FRAG, grow, 'every admitted fragment is spliced in')
+    elif not skipped:
+        ob.violate(FRAG, Q, 'a way from the table lookup to the exit without the splice', 'an admitted fragment can leave reassembly without its octets being spliced in', fv.func, path_text(wit or []))
